@@ -44,6 +44,7 @@ def make_faults(rng: random.Random, b: bytes, marks, ctl) -> list[list]:
 
 class C07(Check):
     PROP = "C07"
+    CRASH_ORACLE = "C07.total"
     WORLD = "X"
     RULE = ("each run = one generated namespace read by the real front end; for every message / request / response type several "
             "valid representations (from the reference peer) are sent through a byte channel that injects: every byte prefix (torn "
